@@ -832,6 +832,57 @@ func ruleR14_7(r *Run) {
 		}
 	}
 	r.check(keeps, "labels.Block.DownresSlow:nil-octant-keeps-stored-content", "with an absent octant the result starts from the block's own voxels", "DownresSlow no longer starts from the stored block when octants are absent", w.fpos(slow))
+	// ... and the zero-filled buffer is out of reach once an octant was found absent
+	{
+		var zeroBufs []ssa.Instruction
+		for _, c := range calls(slow) {
+			if callName(c) != "downresArray" {
+				continue
+			}
+			for _, a := range c.Common().Args {
+				for _, rt := range roots(a, slow) {
+					if ms, ok := rt.V.(*ssa.MakeSlice); ok {
+						zeroBufs = append(zeroBufs, ms)
+					}
+				}
+			}
+		}
+		var wit []ssa.Instruction
+		nTests := 0
+		for _, b := range slow.Blocks {
+			ifi, ok := b.Instrs[len(b.Instrs)-1].(*ssa.If)
+			if !ok {
+				continue
+			}
+			bo, ok := ifi.Cond.(*ssa.BinOp)
+			if !ok || !(bo.Op == token.EQL || bo.Op == token.NEQ) || !isNilConst(bo.Y) {
+				continue
+			}
+			if !strings.Contains(bo.X.Type().String(), "Block") {
+				continue
+			}
+			nTests++
+			nilSucc := b.Succs[0]
+			if bo.Op == token.NEQ {
+				nilSucc = b.Succs[1]
+			}
+			isZero := func(x ssa.Instruction) bool {
+				for _, z := range zeroBufs {
+					if x == z {
+						return true
+					}
+				}
+				return false
+			}
+			if len(nilSucc.Instrs) > 0 && isZero(nilSucc.Instrs[0]) {
+				wit = []ssa.Instruction{nilSucc.Instrs[0]}
+			} else if p := findPath2(slow, nilSucc.Instrs[0], nil, isZero, nil, phiConstBranch); p != nil && wit == nil {
+				wit = p
+			}
+		}
+		r.check(wit == nil && nTests >= 1, "labels.Block.DownresSlow:absent-octant-never-starts-from-zeros", "no zero-filled buffer is reachable behind an absent octant",
+			"behind the test that found an octant absent the zero-filled result buffer can still be reached: the voxels of the absent octants, which mean 'unchanged', are overwritten with label 0", w.fpos(slow), w.renderPath(wit)...)
+	}
 	// the shortcut: from the nil edge of any `octants[i] == nil` test the solid-block store is unreachable
 	var solid ssa.Instruction
 	for _, c := range calls(sb) {
